@@ -302,6 +302,17 @@ impl Case {
         c
     }
 
+    fn nseq(&self) -> usize {
+        self.attrs
+            .iter()
+            .find(|(n, _)| n == "_nseq")
+            .and_then(|(_, v)| match v {
+                Some(AV::Int(i)) => Some(*i as usize),
+                _ => None,
+            })
+            .unwrap_or(0)
+    }
+
     fn model(&self) -> Vec<u8> {
         let in_names: Vec<String> = self
             .ins
@@ -315,9 +326,24 @@ impl Case {
             n_in -= 1;
         }
         let out_names: Vec<String> = (0..self.nout).map(|k| format!("o{k}")).collect();
+        // pseudo-attribute _nseq = n: the first n inputs are packed into a sequence by a preceding
+        // SequenceConstruct node and the operator under test receives that sequence as its first input
+        let nseq = self.nseq();
+        let mut g = Graph::default();
+        let main_inputs: Vec<String> = if nseq > 0 {
+            let pre = Node::new(
+                "SequenceConstruct",
+                &in_names[..nseq].iter().map(|s| s.as_str()).collect::<Vec<_>>(),
+                &["s0"],
+            );
+            g.nodes.push(pre);
+            std::iter::once("s0".to_string()).chain(in_names[nseq..n_in.max(nseq)].iter().cloned()).collect()
+        } else {
+            in_names[..n_in].to_vec()
+        };
         let mut node = Node::new(
             &self.op,
-            &in_names[..n_in].iter().map(|s| s.as_str()).collect::<Vec<_>>(),
+            &main_inputs.iter().map(|s| s.as_str()).collect::<Vec<_>>(),
             &out_names.iter().map(|s| s.as_str()).collect::<Vec<_>>(),
         );
         for (name, v) in &self.attrs {
@@ -335,7 +361,6 @@ impl Case {
             };
             node = node.attr(name, a);
         }
-        let mut g = Graph::default();
         g.nodes.push(node);
         for (k, t) in self.ins.iter().enumerate() {
             let Some(t) = t else { continue };
@@ -415,7 +440,15 @@ fn run_case(c: &Case) -> J {
     });
     match r {
         Ok(Ok(vals)) => {
-            json!({"ev": "ret", "outcome": "ok", "msg": "", "outs": vals.iter().map(out_json).collect::<Vec<_>>()})
+            // a sequence output is logged as the list of its elements
+            let mut outs = Vec::new();
+            for v in &vals {
+                match v {
+                    Value::Sequence(sq) => outs.extend(sq.iter().map(|e| out_json(&e.to_owned()))),
+                    v => outs.push(out_json(v)),
+                }
+            }
+            json!({"ev": "ret", "outcome": "ok", "msg": "", "outs": outs})
         }
         Ok(Err(msg)) => fail("err", &msg),
         Err(msg) => fail("panic", &format!("in Model::run: {msg}")),
@@ -504,6 +537,8 @@ pub const OPS: &[&str] = &[
     "MatMulInteger", "Conv", "ConvTranspose", "ConvInteger", "MaxPool", "AveragePool", "GlobalMaxPool",
     "GlobalAveragePool", "Resize", "CastLike", "Scatter", "Ceil", "Floor", "Round", "IsInf", "IsNaN", "PRelu",
     "LeakyRelu", "ReverseSequence", "DequantizeLinear", "QuantizeLinear", "Einsum",
+    "SequenceConstruct", "SequenceAt", "SequenceLength", "SequenceInsert", "SequenceErase", "ConcatFromSequence",
+    "SplitToSequence",
 ];
 
 fn gen_case(op: &str, r: &mut Rng) -> Case {
@@ -1501,6 +1536,77 @@ fn gen_case(op: &str, r: &mut Rng) -> Case {
             c.attr("equation", Some(AV::Str(eq.clone()))).attr("_terms", Some(AV::Lists(terms))).attr("_out", Some(AV::Ints(out)))
                 .int("_implicit", Some(implicit as i64))
                 .tag(format!("{},inputs={n_in},{kind},{}", dt.name(), if implicit { "implicit" } else { "explicit" }))
+        }
+        "SequenceConstruct" | "SequenceAt" | "SequenceLength" | "SequenceInsert" | "SequenceErase" | "ConcatFromSequence" => {
+            let dt = any_dt(r);
+            let n = r.range(1, 3) as usize;
+            let base = dims(r, 0, 3, 3, true);
+            let mut c = c;
+            let stack = op == "ConcatFromSequence" && r.chance(1, 2);
+            let cat_axis = if base.is_empty() { 0 } else { r.below(base.len()) };
+            for _ in 0..n {
+                let mut s = if op == "ConcatFromSequence" || r.chance(1, 2) { base.clone() } else { dims(r, 0, 3, 3, true) };
+                if op == "ConcatFromSequence" && !stack && !s.is_empty() {
+                    s[cat_axis] = r.range(0, 3) as usize;
+                }
+                c = c.input(tensor(r, &s, dt, -9, 9));
+            }
+            let n_i = n as i64;
+            match op {
+                "SequenceConstruct" => c.tag(format!("{},n={n}", dt.name())),
+                "SequenceLength" => c.int("_nseq", Some(n_i)).tag(format!("n={n}")),
+                "SequenceAt" => {
+                    let pos = r.range(-n_i, n_i - 1);
+                    c.input(T::scalar(Dt::I32, pos).ot(idx_ot(r))).int("_nseq", Some(n_i)).tag(format!("pos={}", if pos < 0 { "neg" } else { "pos" }))
+                }
+                "SequenceInsert" => {
+                    let pos = if r.chance(1, 3) { None } else { Some(r.range(-n_i, n_i)) };
+                    let s = if r.chance(1, 2) { base.clone() } else { dims(r, 0, 3, 3, true) };
+                    let t = format!("pos={}", match pos {
+                        None => "omitted",
+                        Some(p) if p < 0 => "neg",
+                        _ => "pos",
+                    });
+                    c.input(tensor(r, &s, dt, -9, 9)).opt_input(pos.map(|p| T::scalar(Dt::I32, p).ot(idx_ot(r)))).int("_nseq", Some(n_i)).tag(t)
+                }
+                "SequenceErase" => {
+                    let pos = if r.chance(1, 3) { None } else { Some(r.range(-n_i, n_i - 1)) };
+                    let t = format!("pos={}", match pos {
+                        None => "omitted",
+                        Some(p) if p < 0 => "neg",
+                        _ => "pos",
+                    });
+                    c.opt_input(pos.map(|p| T::scalar(Dt::I32, p).ot(idx_ot(r)))).int("_nseq", Some(n_i)).tag(t)
+                }
+                _ => {
+                    let rank = base.len() as i64;
+                    let (axis, na) = if stack {
+                        (r.range(-rank - 1, rank), Some(1))
+                    } else {
+                        (maybe_neg(r, cat_axis as i64, base.len()), if r.chance(1, 2) { Some(0) } else { None })
+                    };
+                    c.int("axis", Some(axis)).int("new_axis", na).int("_nseq", Some(n_i)).tag(format!("new_axis={},axis={}", b2s(na), if axis < 0 { "neg" } else { "pos" }))
+                }
+            }
+        }
+        "SplitToSequence" => {
+            let dt = any_dt(r);
+            let mut s = dims(r, 1, 3, 4, true);
+            let ax = r.below(s.len());
+            let axis = if ax == 0 && r.chance(1, 3) { None } else { Some(maybe_neg(r, ax as i64, s.len())) };
+            let keep = opt_range(r, 0, 1);
+            let (split, t): (Option<T>, &str) = match r.below(3) {
+                0 => (None, "omitted"),
+                1 => (Some(T::scalar(Dt::I32, r.range(1, 3)).ot(onnx::INT64)), "scalar"),
+                _ => {
+                    let n = r.range(1, 3) as usize;
+                    let sizes: Vec<i64> = (0..n).map(|_| r.range(0, 3)).collect();
+                    s[ax] = sizes.iter().sum::<i64>() as usize;
+                    (Some(T::i64s(sizes)), "sizes")
+                }
+            };
+            c.input(tensor(r, &s, dt, -9, 9)).opt_input(split).int("axis", axis).int("keepdims", keep)
+                .tag(format!("split={t},keepdims={}", b2s(keep)))
         }
         other => panic!("no generator for {other}"),
     };
